@@ -782,7 +782,9 @@ impl Engine for CtxFrames {
             programs.push(gen_nodes(ch, 0, &mut budget, &mut fresh, true));
         }
 
-        let ctxts = [ThreadLocalCtxt::new(), ThreadLocalCtxt::new(), ThreadLocalCtxt::shared()];
+        // isolated instances come from `new()` or from `Default::default()` (what `emit::setup()` uses)
+        let mk = |ch: &mut Choices| if ch.chance(1, 2) { ThreadLocalCtxt::new() } else { ThreadLocalCtxt::default() };
+        let ctxts = [mk(ch), mk(ch), ThreadLocalCtxt::shared()];
         let broken_before = CANARY_BROKEN.load(std::sync::atomic::Ordering::SeqCst);
         let w = Arc::new(World {
             ctxts,
